@@ -5,6 +5,9 @@
  * dumpstat.c
  */
 int data_size(object_t *);
+void size_walk_begin(void);
+int size_walk_seen(void *);
+void size_walk_end(void);
 void dumpstat(char *);
 
 #endif
